@@ -125,7 +125,7 @@ _c13("c13_shape_fti_lite", "FftFixedIn<f64> 2->3 chunk 2, 2 channels; as above",
 _c13("c13_shape_fto_lite", "FftFixedOut<f64> 2->3 chunk 3, 2 channels; as above", stubs=FFT_STUBS)
 
 # ---------------------------------------------------------------- C09: no heap traffic
-ALLOC_STUBS = ["std::alloc::{alloc, alloc_zeroed, dealloc, realloc} -> asserting wrappers forwarding to __rust_alloc*"]
+ALLOC_STUBS = ["std::alloc::{alloc, alloc_zeroed, dealloc, realloc} and the private alloc::alloc::{realloc_nonnull, dealloc_nonnull} (what Vec growth and drops go through in this std) -> asserting wrappers forwarding to __rust_alloc*"]
 _c09_a = ("none: concrete history (heap traffic depends on control flow, not on values)",
           "one real-time section: all getters, call, set_resample_ratio_relative(0.75, ramp), masked call [true,false], set_chunk_size(2), all-masked call, reset, call, getters")
 _c09_b = ("set_resample_ratio argument and set_resample_ratio_relative argument: every f64 (NaN/inf, accepted or rejected); ramp; set_chunk_size: every usize; mask entry; first channel length in [0, max] (error path and success path)",
@@ -135,7 +135,7 @@ def _c09(name, typ, part, stubs=(), cap=720, witness=False):
     HARNESSES[name] = H("c09", ["C09"], cap=cap, sym=sym, bounds=typ + "; " + sec,
                         stubs=ALLOC_STUBS + list(stubs), untagged="C09", witness=witness, mem=6)
 for nm, typ, st in (("ffo", "FastFixedOut<f64> Linear chunk 2, 2 ch, max_rel 2", ()),
-                    ("ffi", "FastFixedIn<f32> Nearest chunk 2, 2 ch, max_rel 2", ()),
+                    ("ffi", "FastFixedIn<f32> Nearest, 2 ch, max_rel 2 (part a: chunk 10 so that the frame loop runs inside the section; part b: chunk 2)", ()),
                     ("sfo", "SincFixedOut<f64>+Probe(2,2) Linear max chunk 3 (set_chunk_size(2) in the history), 2 ch", ()),
                     ("sfi", "SincFixedIn<f32>+Probe(2,2) Cubic max chunk 3 (set_chunk_size(2) in the history), 2 ch", ()),
                     ("ftio", "FftFixedInOut<f64> 2->3 chunk 2, 2 ch", FFT_STUBS),
@@ -149,6 +149,10 @@ HARNESSES["c09_sfo_real_kernel"] = H("c09", ["C09"], cap=900, tier="thorough", m
     stubs=ALLOC_STUBS + ["CpuFeature::is_detected -> false"])
 HARNESSES["c09_witness"] = H("c09", ["C09"], witness=True, cap=300, untagged="C09", sym="none",
     bounds="process() inside the section must trip the monitor (vacuity witness)", stubs=ALLOC_STUBS)
+HARNESSES["c09_realloc_witness"] = H("c09", ["C09"], witness=True, cap=300, untagged="C09", sym="none",
+    bounds="Vec::resize beyond the capacity inside the section must trip the reallocation monitor (vacuity witness)", stubs=ALLOC_STUBS)
+HARNESSES["c09_dealloc_witness"] = H("c09", ["C09"], witness=True, cap=300, untagged="C09", sym="none",
+    bounds="dropping a Vec inside the section must trip the deallocation monitor (vacuity witness)", stubs=ALLOC_STUBS)
 
 # ---------------------------------------------------------------- C10: reset == fresh (also C03: untagged checks after reset)
 _c10_sym_thorough = "pre-reset history: ratio change with every accepted f64 (D_full; FixedIn: k/32 grid), ramp bool, mask entry, optional pending relative ramp, a failed call; post-reset calls compared with a fresh twin"
@@ -335,6 +339,8 @@ _c13("c13_ffo_failed_call_midstream", "FastFixedOut<f64> Linear ratio 0.75 chunk
 _c05("c05_ftio_vs_fto_small_chunk", "FftFixedInOut(2,3,2) 2 calls vs FftFixedOut(2,3,1,1) 6 calls: FFT block 3 larger than the output chunk 1; outputs bit-identical", "none (concrete)", stubs=FFT_STUBS)
 _c06("c06_ffo_change_big", ["C06"], "FastFixedOut<f64> Linear chunk 20, max_rel 2: 1 warm-up call, setter + 1 call (the input need during a ramp only matters when chunk*|1/old-1/new| exceeds the 8-frame margin)", "new ratio k/32 (D_grid); ramp bool", tier="thorough", cap=3600)
 
+HARNESSES["c03_sfo_chunk_reset_plain"] = H("c03", ["C03", "C04"], cap=900, sym="chunk size before the reset: 1..8",
+    bounds="SincFixedOut<f64>+Probe(2,1) Nearest max chunk 8, max_rel 1.25: set_chunk_size(c), call, reset(), two plain calls; region [base]")
 HARNESSES["c03_ffo_reset_plain"] = H("c03", ["C03", "C04"], cap=900, sym="ratio before the reset: k/32 (D_grid); ramp",
     bounds="FastFixedOut<f64> Nearest chunk 10, max_rel 2: setter, reset(), two plain calls (no setter after the reset); region [base]")
 _c05("c05_sfi_chunk_change_to3", "SincFixedIn<f64>+Probe(4,2) Linear, max chunk 8, ratio 1: 2 calls, set_chunk_size(3), 2 calls; strict probe and uniform instants", "none (concrete new size; the symbolic-size variant is thorough)")
@@ -374,3 +380,7 @@ for _n, _h in HARNESSES.items():
 # is decided by Engine M (mirsym/setter.py). Kept as bounded attempts.
 for _n in ("c12_abs_ffi_sym", "c12_abs_ffi32_sym", "c12_abs_sfi_sym", "c12_rel_ffi_sym", "c12_rel_sfi_sym"):
     HARNESSES[_n]["thorough_cap"] = 900
+
+for _n in ("c03_ffi_cubic_grid", "c03_sfi_quadratic_grid"):
+    HARNESSES[_n]["cap"] = 900
+    HARNESSES[_n]["thorough_cap"] = 1800
